@@ -248,6 +248,22 @@ def directed_histories():
     for fop in PARTIAL_DISCARD_OPS:
         hs.append({"id": "d-partial-discard-" + fop, "onClassic": False, "ops": [
             op("install", rev=1), op("remove", rev=0, fk=9, fop=fop), op("remove", rev=0)]})
+    # every recorded attribute is switched by the failing operation (channel, confinement flags, validation flag,
+    # cohort, refresh times, config) and the fault comes after link-snap
+    for kk in (12, 15, 19):
+        hs.append({"id": "d-attrs-k%d" % kk, "onClassic": False, "ops": [
+            op("install", rev=1, chan="latest/edge", dev=True), op("setconfig", val=1), op("inhibit"),
+            op("refresh", rev=2, store=True, chan="latest/stable", cohort="c1", ignv=True, jail=True, fk=kk),
+            op("refresh", rev=2, store=True, chan="latest/stable", cohort="c1", ignv=True, jail=True),
+            op("setconfig", val=2), op("inhibit"),
+            op("revert", rev=1, dev=True, fk=min(kk, 13)), op("revert", rev=1, nb=True),
+            op("refresh", rev=3, chan="latest/edge", fk=kk), op("disable"), op("enable", fk=4), op("enable")]})
+    # failed refresh to a kept revision after older revisions were discarded in the same change
+    # (old-candidate-index must be corrected by countMissingRevs)
+    for kk in (17, 18, 19):
+        hs.append({"id": "d-missingrevs-k%d" % kk, "onClassic": False, "ops": [
+            op("setretain", val=4), op("install", rev=1), op("refresh", rev=2), op("refresh", rev=3), op("refresh", rev=4),
+            op("setretain", val=2, str=True), op("refresh", rev=3, fk=kk), op("revert", rev=2), op("refresh", rev=5)]})
     # kernel, boot in-use answers
     k = KERNEL
     hs.append({"id": "d-kernel-1", "onClassic": False, "ops": [
@@ -713,11 +729,17 @@ VACUITY = {
 
 
 def run(ctx, prop):
-    mc = model_check(ctx, prop)
+    # VERIF_SNAPSEQ_CONF_ONLY=1 (selftest convenience on a loaded machine): skip the TLC runs on the spec itself,
+    # which do not depend on /repo; evidence then carries the numbers of the conformance part only.
+    conf_only = bool(os.environ.get("VERIF_SNAPSEQ_CONF_ONLY"))
+    if conf_only:
+        mc = {"states": 1, "transitions": 1, "coverage": {}, "constants": {}, "wall": 0.0, "depth": 0}
+    else:
+        mc = model_check(ctx, prop)
     tb = build(ctx)
     violations = []
 
-    strict = strict_clauses(ctx, prop, tb)
+    strict = {"checked": [], "violations": []} if conf_only else strict_clauses(ctx, prop, tb)
     violations += strict["violations"]
 
     dlog = replay(ctx, tb, directed_histories(), "directed")
